@@ -114,7 +114,7 @@ def run(ctx: core.Ctx):
         t, r, c = 3, rng.randint(2, 8), rng.randint(2, 8)
         nz = rng.randint(1, 4)
         nd = -9999.0
-        data = np.array([[[rng.choice([nd, float("nan"), float(rng.randint(0, 100))]) if rng.random() < .4 else float(rng.randint(0, 100)) for _ in range(c)] for _ in range(r)] for _ in range(t)], dtype="float32")
+        data = np.array([[[rng.choice([nd, float("nan"), float(rng.randint(0, 100))]) if rng.random() < .4 else rng.randint(0, 1000) / 7.0 for _ in range(c)] for _ in range(r)] for _ in range(t)], dtype="float32")
         zones = np.array([[rng.randrange(nz) if rng.random() > .1 else 255 for _ in range(c)] for _ in range(r)], dtype="uint8")
         tt = np.arange(t).astype("datetime64[D]")
         xd = xr.DataArray(data, dims=("time", "y", "x"), coords={"time": tt}, attrs={"nodata": nd})
@@ -123,6 +123,14 @@ def run(ctx: core.Ctx):
         xdd = xr.DataArray(da_.from_array(data, chunks=(1, max(1, r // 2), c)), dims=("time", "y", "x"), coords={"time": tt}, attrs={"nodata": nd})
         zdd = xr.DataArray(da_.from_array(zones, chunks=(max(1, r // 2), c)), dims=("y", "x"), attrs={"nodata": 255})
         r2 = xdd.hdc.zonal.mean(zdd, list(range(nz))).compute()
+        for odt in ("float64", "float32"):
+            rn = xd.hdc.zonal.mean(zd, list(range(nz)), dtype=odt)
+            rd = xdd.hdc.zonal.mean(zdd, list(range(nz)), dtype=odt)
+            rdc = rd.compute()
+            if not (str(rn.dtype) == odt and str(rd.dtype) == odt and str(rdc.values.dtype) == odt and np.array_equal(np.asarray(rn), np.asarray(rdc), equal_nan=True)):
+                ctx.fail("zonal.mean", dict(data=data.tolist(), zones=zones.tolist(), dtype=odt, backend="dask"),
+                         dict(dtype_lazy=str(rd.dtype), dtype_computed=str(rdc.values.dtype), equal=bool(np.array_equal(np.asarray(rn), np.asarray(rdc), equal_nan=True))),
+                         "requested output dtype and the numpy result, for dask input too")
         ctx.case(("acc", data.tobytes(), zones.tobytes()))
         ctx.count("accessor")
         for k in range(nz):
